@@ -67,8 +67,14 @@ def monitor(tier, seed, progress):
     viol, n_checks, n_ind = {}, 0, 0
     for (name, f, sig) in ind.all_indicators():
         ok_any = False
-        for n in ([60, 300] if tier == 'quick' else [30, 60, WARMUP, WARMUP + 1, 300, 500]):
-            cs, style = ind.gen_series(rng, n, rng.choice(['walk', 'spiky', 'trend']))
+        # several consecutive truncations of the same series: what the single value must equal depends on the shape of the last few candles
+        # (a tie inside the last window, a swing high one to three candles from the end), so the end of the input is moved candle by candle
+        groups = [[60, 61, 62, 63], [300, 301]] if tier == 'quick' else [[30, 31, 32], [60, 61, 62, 63], [WARMUP - 1, WARMUP, WARMUP + 1, WARMUP + 2], [300, 301, 302], [500, 501]]
+        series = []
+        for g in groups:
+            cs_all, style_g = ind.gen_series(rng, max(g), rng.choice(['walk', 'spiky', 'trend']))
+            series += [(n_, cs_all[:n_], style_g) for n_ in g]
+        for (n, cs, style) in series:
             arr = np.array(cs)
             vs = ind.variants(sig, rng)
             if n > WARMUP + 20:
